@@ -1,5 +1,6 @@
 import XsgModel.Proofs.History
 import XsgModel.Proofs.SpecOf
+import XsgModel.Proofs.StructCount
 /-!
 # C03 — Optional / Vec / text inference is exact, not merely safe
 
@@ -136,5 +137,16 @@ example : historyOk exampleHistory := by
     rcases hd with rfl | rfl | rfl <;> decide
   · intro d hd d' hd'; simp only [exampleHistory, List.mem_cons, List.mem_nil_iff, or_false] at hd hd'
     rcases hd with rfl | rfl | rfl <;> rcases hd' with rfl | rfl | rfl <;> rfl
+
+/-- "one struct per non-`String` position, and nothing else": the number of rendered structs is the number of
+non-`String` positions of the schema, which for a parsed history is the schema `specOfDocs` of the documents -/
+theorem C03_struct_count (o : Options) (t : Elem) : (renderAST o t).length = t.abs.structCount := by
+  simp only [renderAST, renderWith, List.length_map]
+  exact walk_length o.sort t [] []
+
+theorem C03_struct_count_history (o : Options) (H : List Doc) (h : historyOk H) :
+    ∃ t, parseHistory (H.map Doc.events) = .ok t ∧ (renderAST o t).length = (specOfDocs (H.map (·.root))).structCount := by
+  obtain ⟨t, ht, habs⟩ := C03_spec_exact H h
+  exact ⟨t, ht, by rw [C03_struct_count, habs]⟩
 
 end Xsg
